@@ -20,7 +20,7 @@ func main() {
 		Rule: "reader family: an operation sequence of length 60..200 over {Peek, Skip, ReadByte, ReadBinary, Read, Release, Len} with sizes around node boundaries (1, 1023..1025, 4095..4097, 8191..8193, 20000, 600000) runs on the real buffered connection over a scripted source (position-coded bytes, seeded fragment sizes 1..20000, EOF or an injected error at a seeded point, initial buffer 0/100/4096/8192) next to a byte-queue model; previously peeked slices are re-examined after every operation until the next Release (poison-on-free hook H3 on); " +
 			"writer family: sequences over {Malloc+fill, WriteBinary (copy and zero-copy sizes), Flush, ReadFrom}, the bytes received by the peer are compared with the concatenation at every Flush; distinct = hash of the operation sequence; non-trivial = at least one operation crosses a 4096-byte node boundary",
 		Assumptions: []string{
-			"ReadFrom is not one of the property's writer operations (reserve, write, flush): it is exercised, and if it returns an error the sequence ends without verdict",
+			"ReadFrom is a write of the source's bytes (it is how body streams reach the connection): a source that does not fail must be taken completely",
 			"a Peek/Read that hits the injected error may return fewer bytes; the bytes it does return must still be the next bytes of the stream",
 		},
 		Shards: func(t string) int {
@@ -406,8 +406,9 @@ func writerCase(w *mon.W, c *mon.Case) {
 				return
 			}
 			if err != nil {
-				w.Count("readfrom_errors_sequence_ended", 1)
-				_ = n
+				// the source never fails and the peer takes everything: an error here is the
+				// connection giving up on bytes it was handed
+				c.Violate("readfrom-error", "ReadFrom of a %d-byte source (%s) returned n=%d, %v after %v", sz, kind, n, err, tailOps(opsLog))
 				return
 			}
 			model = append(model, b...)
@@ -434,4 +435,11 @@ func work(w *mon.W) {
 	standard.VerifPoisonEnabled = true
 	w.Cases("reader", uint64(w.Pick(3000, 250000)), func(c *mon.Case) { readerCase(w, c) })
 	w.Cases("writer", uint64(w.Pick(3000, 200000)), func(c *mon.Case) { writerCase(w, c) })
+}
+
+func tailOps(l []string) []string {
+	if len(l) > 8 {
+		return l[len(l)-8:]
+	}
+	return l
 }
